@@ -310,6 +310,48 @@ Definition M_index_sort (p : sort_params) (depth : nat) (labels : list val) (key
   order <- order2d_to_typeerror (M_sifo_top p depth labels keyres asc) ;;
   reorder_index depth labels order.
 
+(* ------------------------------------------------------------------ grow-only IndexHierarchy: label cache *)
+(* index_hierarchy.py: `_levels` always holds the current labels; `_blocks` is a cached table of them, valid
+   iff not `_recache` (IndexHierarchyGO.append/extend :1674-1687 grow `_levels`, keep the old table and set
+   `_recache`; _update_array_cache :692-694 rebuilds the table; values_at_depth :950-968 reads the table after
+   a conditional refresh).  sort_index_for_order takes its lexsort keys from values_at_depth. *)
+Record ih_state := mk_ih_state {
+  ih_labels : list val;              (* what _levels holds: the current labels *)
+  ih_table : option (list val);      (* rows of the cached _blocks, None before the first materialisation *)
+  ih_recache : bool
+}.
+
+Inductive ih_op := IhAppend (l : val) | IhExtend (ls : list val) | IhRead (d : nat).
+
+Definition ih_refresh (c : refresh_cond) (st : ih_state) : ih_state :=
+  let go := match c with
+            | RefreshOnRecache => ih_recache st
+            | RefreshOnMissingTable => match ih_table st with None => true | Some _ => false end
+            | RefreshNever => false
+            end in
+  if go then mk_ih_state (ih_labels st) (Some (ih_labels st)) false else st.
+
+Definition ih_values_at_depth (cp : cache_params) (st : ih_state) (d : nat) : ih_state * list val :=
+  let st' := ih_refresh (cp_vad_refresh cp) st in
+  (st', depth_vec (match ih_table st' with Some t => t | None => [] end) d).
+
+Definition ih_step (cp : cache_params) (st : ih_state) (op : ih_op) : ih_state :=
+  match op with
+  | IhAppend l => mk_ih_state (ih_labels st ++ [l]) (ih_table st) (cp_append_sets_recache cp || ih_recache st)
+  | IhExtend ls => mk_ih_state (ih_labels st ++ ls) (ih_table st) (cp_extend_sets_recache cp || ih_recache st)
+  | IhRead d => fst (ih_values_at_depth cp st d)
+  end.
+
+Definition ih_run (cp : cache_params) (ops : list ih_op) (st : ih_state) : ih_state :=
+  fold_left (ih_step cp) ops st.
+
+Definition ih_op_labels (op : ih_op) : list val :=
+  match op with IhAppend l => [l] | IhExtend ls => ls | IhRead _ => [] end.
+
+(* the lexsort key vectors sort_index_for_order obtains from a hierarchical index in state st *)
+Definition ih_key_vectors (cp : cache_params) (st : ih_state) (depth : nat) : list (list val) :=
+  map (fun d => snd (ih_values_at_depth cp st d)) (seq 0 depth).
+
 (* ------------------------------------------------------------------ guards of the refinement *)
 Definition vecs_len_ok (n : nat) (c : cfs) : bool :=
   (cfs_len c =? n)%nat && forallb (fun v => (length v =? n)%nat) (cfs_keys c).
